@@ -285,7 +285,9 @@ void runCase(uint64_t c, rt::Rng rng) {
         bool joinThrew = false;
         try { t->join(); } catch (const std::system_error &) { joinThrew = true; }
         if (!joinThrew && !sh.done.load()) fail("join-before-return", "join-after-detach", "join() on a detached Thread returned normally while the callable was still running");
-        while (!t->isFinished()) usleep(50);   // the detached body still writes into `local` and `sh`
+        // the detached body still writes into `local` and `sh`: wait for it (bounded by logical steps once the callable returned)
+        for (unsigned grace = 0; !t->isFinished() && grace < 20000;) { if (sh.done.load()) ++grace; usleep(50); }
+        if (!t->isFinished()) fail("not-finished-after-join", "isFinished", "isFinished() never became true after the callable of a detached Thread had returned");
     } else {
     if (!t->isJoinable()) fail("not-joinable", "join", "a started Thread is not joinable");
     t->join();
